@@ -193,6 +193,11 @@ def main(argv=None):
             malfunctions.append(f"{cname}: harness stand-in incomplete for the current source ({rep.get('what', '')[:200]}); "
                                 f"witness {r['args']}")
             return
+        tb_files = re.findall(r'File "([^"]+)"', rep.get('traceback', '') or '')
+        if code in ('EXC:NameError', 'EXC:ImportError', 'EXC:ModuleNotFoundError') and tb_files and \
+                tb_files[-1].startswith(ROOT):
+            malfunctions.append(f"{cname}: error inside the harness itself ({rep.get('what', '')[:200]})")
+            return
         for k in known:
             if k.get('property') == prop and k.get('condition') == cname and k.get('code') == code:
                 known_hits.append((cname, k, r['args']))
